@@ -845,9 +845,15 @@ def c17(ctx):
         a, b = neigh[i % 4], neigh[(i // 4 + 1) % 4]
         x = utf8(cp)
         bs = utf8(a) + x + utf8(b) + L + L + R + L + BS * 0 + R + BS + x      # move over it, delete it, retype it
-        bs += [32] + x + x + [32, 45] + (x if cp not in (0x68, 0x2D, 0x20) else [0x76]) + [32, 0x22] + utf8(a) + x + [0x22]
+        steps = [{"ev": "byte", "b": v} for v in bs]
+        # the application writes / changes the prompt while the character is right of the cursor
+        steps += [{"ev": "byte", "b": v} for v in L + L]
+        steps.append({"ev": "write", "chunks": [{"m": "w", "t": x}]} if i % 2 == 0 else {"ev": "prompt", "p": 2})
+        steps += [{"ev": "byte", "b": v} for v in R + R]
+        bs = [32] + x + x + [32, 45] + (x if cp not in (0x68, 0x2D, 0x20) else [0x76]) + [32, 0x22] + utf8(a) + x + [0x22]
         bs += [13] + sessions.KEY_BYTES["up"] + [13]
-        scripts.append({"sid": i + 1, "cfg": {"cmd": 64, "hcap": 64, "set": "raw", "prompt": 0}, "steps": [{"ev": "byte", "b": v} for v in bs]})
+        steps += [{"ev": "byte", "b": v} for v in bs]
+        scripts.append({"sid": i + 1, "cfg": {"cmd": 64, "hcap": 64, "set": "raw", "prompt": 0}, "steps": steps})
     ctx.extra["scalars_through_cli"] = len(cps)
     validate_cli(ctx, vh, scripts, "C17", "c17", shards=14)
     return ctx.finish("one record per scalar value with the library's encode_utf8, char_count, char_byte_index, char_pop_front "
@@ -939,6 +945,11 @@ def c02(ctx):
         for st in sc["steps"]:
             if st["ev"] == "byte" and st["b"] >= 0x80 and rng.random() < 0.5:
                 st["b"] = rng.choice(special[7:])
+    tabs = [x for x in c11_systematic(ctx) if x["cfg"]["set"] in ("mixed", "wide", "tiny")]
+    hist_prof = {"cmd": [8, 16, 64], "hcap": [8, 12, 16, 24, 64], "sets": ["raw", "mixed"], "steps": (20, 90),
+                 "alphabet": [0x61, 0x62, 0x444, 0x4E2D, 0x1F600, 0xE9], "enter_forms": ENTER_FORMS,
+                 "w": {"char": 30, "space": 14, "bs": 3, "left": 2, "right": 1, "up": 16, "down": 8, "tab": 2, "enter": 18, "word": 3}}
+    scripts += tabs + sessions.gen_sessions(rng, 400 if ctx.tier == "quick" else 15000, hist_prof, sid0=7000001)
     validate_cli(ctx, vh, scripts, "C02", "c02", shards=12)
     return ctx.finish("decoder level: TLC computes the emission pattern of every class sequence of <= 4 bytes >= 0x80 (14 classes, "
                       "class-invariance asserted on lowest/highest/alternating representatives); the real Utf8Accum is fed the "
@@ -1048,10 +1059,10 @@ def systematic_api(ctx, kind):
     sid = 700001
     if kind == "c13":
         pieces = ["x", "\n", "\r\n", ""]
-        texts = [a + b for a in pieces for b in pieces] + pieces
+        texts = [a + b for a in pieces for b in pieces] + pieces + ["y" * 31 + "\n", "y" * 40 + "\n", "y" * 30 + "\n"]
         methods = ["w", "wl", "f"]
         chunkings = [[(m, t)] for m in methods for t in texts]
-        chunkings += [[(m1, t1), (m2, t2)] for m1 in methods for m2 in methods for t1 in pieces + ["x\n"] for t2 in pieces + ["y"]]
+        chunkings += [[(m1, t1), (m2, t2)] for m1 in methods for m2 in methods for t1 in pieces + ["x\n"] for t2 in pieces + ["y", "z" * 32 + "\n", "z" * 29 + "\n"]]
         if not q:
             chunkings += [[(m1, t1), (m2, t2), (m3, t3)] for m1 in methods for m2 in ["w", "wl"] for m3 in ["w", "u"]
                           for t1 in pieces for t2 in pieces for t3 in pieces]
@@ -1089,7 +1100,8 @@ def systematic_api(ctx, kind):
 @check("C13")
 def c13(ctx):
     q = ctx.tier == "quick"
-    texts = ["x", "", "\n", "\r\n", "x\n", "x\r\n", "\nx", "x\ny", "x\n\ny", "\n\n", "xy\r\nz", "ж", "a b"]
+    texts = ["x", "", "\n", "\r\n", "x\n", "x\r\n", "\nx", "x\ny", "x\n\ny", "\n\n", "xy\r\nz", "ж", "a b",
+             "0123456789" * 3 + "\n", "0123456789" * 3 + "1\n", "0123456789" * 3 + "12\nz", "a" * 64 + "\n" + "b" * 33, "ж" * 16 + "\n"]
     prof = {"cmd": [0, 2, 5, 8, 16, 40], "hcap": [0, 5, 16], "sets": ALLSETS, "prompts": [0, 1, 2, 3], "steps": (8, 50),
             "alphabet": sessions.W1, "hs_out": 0.9, "hs_prompt": 0.2, "texts": texts,
             "w": {"word": 14, "enter": 14, "write": 12, "prompt": 2, "left": 10, "char": 25}}
@@ -1275,7 +1287,7 @@ def decl_names(by_id, rid):
     return [v["name"] for v in e["variants"]]
 
 
-def typed_sessions(rng, n, sid0, by_id, roots=("args", "top", "grp", "grp2", "names"), hs_out=0.4):
+def typed_sessions(rng, n, sid0, by_id, roots=("args", "top", "grp", "grp2", "names"), hs_out=0.4, gated=True):
     """Random sessions against derived command sets: plausible and implausible command lines with editing"""
     out = []
     for i in range(n):
@@ -1288,14 +1300,16 @@ def typed_sessions(rng, n, sid0, by_id, roots=("args", "top", "grp", "grp2", "na
             path, v = rng.choice(paths)
             alpha = variant_alphabet(v, by_id, rng)
             toks = list(path) + [rng.choice(alpha) for _ in range(rng.randint(0, 3))]
-            if rng.random() < 0.15:
+            if gated and rng.random() < 0.15:
                 toks = ["help"] + toks[:2]
+            if not gated:
+                toks = [t for t in toks if t not in ("help",) and not (t.startswith("-") and "h" in t and not t.startswith("--"))]
             line = " ".join(t if t and " " not in t and '"' not in t else '"%s"' % t.replace('"', '\\"') for t in toks)
             items = [line]
             if rng.random() < 0.3:
-                items += ["<left>", "<bs>", "<tab>"]
+                items += ["<left>", "<bs>"] + (["<tab>"] if gated else [])
             items.append("<enter>")
-            if rng.random() < 0.3:
+            if gated and rng.random() < 0.3:
                 items.append("<up>")
             hs = sessions.handler_script(rng, hs_out, 0.2)
             steps += scen(items, hs or None)
@@ -1403,6 +1417,7 @@ def c16(ctx):
     n_a = 300 if q else 6000
     n_b = 400 if q else 8000
     scripts_a = sessions.gen_sessions(rng, n_a, ungated, sid0=1)
+    scripts_a += typed_sessions(rng, 150 if q else 3000, 50001, load_catalogue()[1], gated=False)
     scripts_b = sessions.gen_sessions(rng, n_b, gated, sid0=100001)
     # explicit help-shaped lines for every set
     T = []
@@ -1447,7 +1462,7 @@ def c16(ctx):
         if ref is None:
             ref = recs
             # the reference itself is validated by the specification, so that it is not vacuous
-            validate_cli(ctx, vh, scripts_a, "ALL", "c16ref", shards=8)
+            validate_cli(ctx, vh, scripts_a, "C16", "c16ref", shards=8)
         else:
             ctx.traces += n_a
             ctx.events += len(recs)
